@@ -1,6 +1,6 @@
 // Command harness runs the real bluemonday (built from /repo's working tree with
 // -tags verif) on generated cases and writes one protocol line per case; the Lean
-// driver replays the same lines on the model.
+// driver replays the same lines on the model and evaluates the oracles.
 package main
 
 import (
@@ -9,12 +9,29 @@ import (
 	"fmt"
 	"math/rand"
 	"os"
+	"regexp"
 
 	"verif/bmx"
 
 	"github.com/microcosm-cc/bluemonday"
 	"github.com/microcosm-cc/bluemonday/css"
 )
+
+type ctx struct {
+	w    *bufio.Writer
+	r    *rand.Rand
+	n    int
+	work string
+	prop string
+	pid  int
+}
+
+func b01(b bool) string {
+	if b {
+		return "1"
+	}
+	return "0"
+}
 
 // safeSanitize runs Sanitize and reports a panic as the literal PANIC.
 func safeSanitize(p *bluemonday.Policy, in []byte) (res string) {
@@ -26,12 +43,37 @@ func safeSanitize(p *bluemonday.Policy, in []byte) (res string) {
 	return bmx.HexField([]byte(p.Sanitize(string(in))))
 }
 
-func b01(b bool) string {
-	if b {
-		return "1"
-	}
-	return "0"
+// policy registers a built policy with the driver and returns its id.
+func (c *ctx) policy(ops []*bmx.Op) (int, *bluemonday.Policy) {
+	c.pid++
+	pol := bmx.Build(ops)
+	fmt.Fprintf(c.w, "policy %d %s %s\n", c.pid, bmx.EncodeOps(ops), bmx.HexS(pol.VerifDump(bmx.RegexNamer(ops))))
+	return c.pid, pol
 }
+
+func sourceNamer(r *regexp.Regexp) string { return fmt.Sprintf("s%x", r.String()) }
+
+// shipped registers one of the shipped constructors.
+func (c *ctx) shipped(name string) (int, *bluemonday.Policy) {
+	c.pid++
+	var pol *bluemonday.Policy
+	switch name {
+	case "@STRICT":
+		pol = bluemonday.StrictPolicy()
+	case "@UGC":
+		pol = bluemonday.UGCPolicy()
+	}
+	fmt.Fprintf(c.w, "policy %d %s %s\n", c.pid, name, bmx.HexS(pol.VerifDump(sourceNamer)))
+	return c.pid, pol
+}
+
+func (c *ctx) san(pid int, pol *bluemonday.Policy, in []byte) {
+	fmt.Fprintf(c.w, "san %d %s %s\n", pid, bmx.HexField(in), safeSanitize(pol, in))
+}
+
+func (c *ctx) stat(key string, v interface{}) { fmt.Fprintf(c.w, "# %s %v\n", key, v) }
+
+var families = map[string]func(*ctx){}
 
 func main() {
 	family := flag.String("family", "tok", "case family")
@@ -39,8 +81,9 @@ func main() {
 	n := flag.Int("n", 1000, "number of cases")
 	out := flag.String("out", "", "output file (default stdout)")
 	work := flag.String("work", "/verif/work", "directory with extractor artefacts")
+	prop := flag.String("prop", "", "property the run serves (selects directed material)")
 	flag.Parse()
-	w := bufio.NewWriter(os.Stdout)
+	w := bufio.NewWriterSize(os.Stdout, 1<<20)
 	if *out != "" {
 		f, err := os.Create(*out)
 		if err != nil {
@@ -48,49 +91,55 @@ func main() {
 			os.Exit(2)
 		}
 		defer f.Close()
-		w = bufio.NewWriter(f)
+		w = bufio.NewWriterSize(f, 1<<20)
 	}
 	defer w.Flush()
-	r := rand.New(rand.NewSource(*seed))
-	switch *family {
-	case "tok":
-		for i := 0; i < *n; i++ {
+	c := &ctx{w: w, r: rand.New(rand.NewSource(*seed)), n: *n, work: *work, prop: *prop}
+	fn, ok := families[*family]
+	if !ok {
+		fmt.Fprintln(os.Stderr, "unknown family", *family)
+		os.Exit(2)
+	}
+	fn(c)
+}
+
+func init() {
+	families["tok"] = func(c *ctx) {
+		for i := 0; i < c.n; i++ {
 			var in []byte
 			switch i % 3 {
 			case 0:
-				in = bmx.RandMalformed(r, 1+r.Intn(12))
+				in = bmx.RandMalformed(c.r, 1+c.r.Intn(12))
 			case 1:
-				in = bmx.RandBytes(r, 1+r.Intn(24))
+				in = bmx.RandBytes(c.r, 1+c.r.Intn(24))
 			default:
-				in = bmx.RandMalformed(r, 1+r.Intn(40))
+				in = bmx.RandMalformed(c.r, 1+c.r.Intn(40))
 			}
-			fmt.Fprintf(w, "tok %s %s\n", bmx.HexField(in), bmx.EncTokens(bmx.Tokenize(in)))
+			fmt.Fprintf(c.w, "tok %s %s\n", bmx.HexField(in), bmx.EncTokens(bmx.Tokenize(in)))
 		}
-	case "san":
-		pid := 0
-		for i := 0; i < *n; {
-			ops := bmx.RandPolicyOps(r)
-			pid++
-			pol := bmx.Build(ops)
-			fmt.Fprintf(w, "policy %d %s %s\n", pid, bmx.EncodeOps(ops), bmx.HexS(pol.VerifDump(bmx.RegexNamer(ops))))
-			g := bmx.NewDocGen(r, ops)
-			for k := 0; k < 8 && i < *n; k++ {
+	}
+	families["san"] = func(c *ctx) {
+		for i := 0; i < c.n; {
+			ops := bmx.RandPolicyOps(c.r)
+			pid, pol := c.policy(ops)
+			g := bmx.NewDocGen(c.r, ops)
+			for k := 0; k < 8 && i < c.n; k++ {
 				var in []byte
 				if k == 7 {
-					in = bmx.RandMalformed(r, 1+r.Intn(20))
+					in = bmx.RandMalformed(c.r, 1+c.r.Intn(20))
 				} else {
-					in = g.Doc(1 + r.Intn(14))
+					in = g.Doc(1 + c.r.Intn(14))
 				}
-				out := safeSanitize(pol, in)
-				fmt.Fprintf(w, "san %d %s %s\n", pid, bmx.HexField(in), out)
+				c.san(pid, pol, in)
 				i++
 			}
 		}
-	case "hdl":
-		g := bmx.NewCSSGen(r, *work)
-		// per property: the single tokens its real handler accepts
+	}
+	families["hdl"] = func(c *ctx) {
+		g := bmx.NewCSSGen(c.r, c.work)
 		all := append(append([]string{}, bmx.CSSValuePool...), g.Vocab...)
-		per := (*n + len(g.Props) - 1) / len(g.Props)
+		per := (c.n + len(g.Props) - 1) / len(g.Props)
+		acceptedN := 0
 		for _, prop := range g.Props {
 			h := css.GetDefaultHandler(prop)
 			var accepted []string
@@ -101,14 +150,17 @@ func main() {
 			}
 			for k := 0; k < per; k++ {
 				v := g.Value(accepted)
-				fmt.Fprintf(w, "hdl %s %s %s\n", bmx.HexS(prop), bmx.HexS(v), b01(h(v)))
+				ok := h(v)
+				if ok {
+					acceptedN++
+				}
+				fmt.Fprintf(c.w, "hdl %s %s %s\n", bmx.HexS(prop), bmx.HexS(v), b01(ok))
 			}
 		}
 		for _, v := range all {
-			fmt.Fprintf(w, "hdl %s %s %s\n", bmx.HexS("no-such-property"), bmx.HexS(v), b01(css.GetDefaultHandler("no-such-property")(v)))
+			fmt.Fprintf(c.w, "hdl %s %s %s\n", bmx.HexS("no-such-property"), bmx.HexS(v), b01(css.GetDefaultHandler("no-such-property")(v)))
 		}
-	default:
-		fmt.Fprintln(os.Stderr, "unknown family")
-		os.Exit(2)
+		c.stat("accepted", acceptedN)
+		c.stat("properties", len(g.Props))
 	}
 }
